@@ -81,16 +81,23 @@ def to_descriptions(w, terse=False):
     graphs = []
     for g in w["graphs"]:
         nodes = []
-        for n in g["nodes"]:
+        for k_, n in enumerate(g["nodes"]):
             nd = {"name": n["name"], "work_profile": n["profile"]}
+            # optional attributes are spelled out (with their default value) on every other non-source node
+            has_parent = any(n["name"] in m["children"] for m in g["nodes"])
+            terse_ = terse or not has_parent or k_ % 2 == 1
             if n["children"]:
                 nd["children"] = list(n["children"])
             if n.get("conditional"):
                 nd["conditional"] = True
+            elif not terse_:
+                nd["conditional"] = False  # optional attributes spelled out with their default value
             if n.get("terminal"):
                 nd["terminal"] = True
-            if n.get("probability", 1.0) != 1.0:
-                nd["probability"] = n["probability"]
+            elif not terse_:
+                nd["terminal"] = False
+            if n.get("probability", 1.0) != 1.0 or not terse_:
+                nd["probability"] = n.get("probability", 1.0)
             if n.get("slo") is not None:
                 nd["slo"] = n["slo"]
             nodes.append(nd)
@@ -336,6 +343,57 @@ def _paths(g):
     for s in [n for n, d in indeg.items() if d == 0]:
         rec(s, [])
     return out
+
+
+def deadline_ranges(w, g, ov, with_flags):
+    """(bases, variance, lower bound, upper bound) of `deadline - release` for the task graphs of job graph g"""
+    spec_nodes = {n["name"]: n for n in g["nodes"]}
+    paths = _paths(g)
+    profs = w["profiles"]
+
+    def slow(n):
+        return max(s["runtime"] for s in profs[spec_nodes[n]["profile"]]["strategies"])
+
+    def weight(n):
+        return slow(n) if spec_nodes[n].get("probability", 1.0) > 0 else 0
+
+    def length(n):
+        s = spec_nodes[n].get("slo")
+        if ov.get("override_slo", -1) > 0:
+            s = ov["override_slo"]
+        return s if s is not None else slow(n)
+
+    def lengths(n):
+        if spec_nodes[n].get("probability", 1.0) <= 0 and spec_nodes[n].get("slo") is None \
+                and not ov.get("override_slo", -1) > 0:
+            return {0, slow(n)}
+        return {length(n)}
+
+    def path_sums(p):
+        sums = {0}
+        for n in p:
+            sums = {a + b for a in sums for b in lengths(n)}
+        return sums
+
+    best = max(sum(weight(n) for n in p) for p in paths)
+    bases = sorted(set().union(*[path_sums(p) for p in paths if sum(weight(n) for n in p) == best]))
+    dv = g.get("deadline_variance")
+    if dv is None:
+        dv = [w["flags"]["min_deadline_variance"], w["flags"]["max_deadline_variance"]] if with_flags else [0, 0]
+    lo_b, hi_b = 0, 2 ** 63 - 1
+    if with_flags:
+        lo_b, hi_b = w["flags"]["min_deadline"], w["flags"]["max_deadline"]
+    zero_w = any(weight(n) == 0 for n in spec_nodes)
+    return bases, dv, lo_b, hi_b, zero_w
+
+
+def deadline_in_range(rt, dls, bases, dv, lo_b, hi_b):
+    for base in bases:
+        inc_lo = max(lo_b, min(hi_b, base * abs(dv[0]) / 100.0))
+        inc_hi = max(lo_b, min(hi_b, base * abs(dv[1]) / 100.0))
+        if all(round(base + inc_lo) - 1e-9 <= d - rt <= round(base + inc_hi) + 1e-9 for d in dls):
+            return True
+    return False
 
 
 def check_releases(case, w, g, jn, jg, tgs, ov, timeout, vio, probe):
